@@ -12,17 +12,48 @@ class LRUCache(BaseCacheImpl): pass
 class LFUCache(BaseCacheImpl): pass
 class RRCache(BaseCacheImpl): pass
 class TTLCache(BaseCacheImpl):
-    def __init__(self, maxsize=0, ttl=0, *a, **k): super().__init__(maxsize)
+    """entries expire `ttl` seconds after insertion (checked on lookup)"""
+    def __init__(self, maxsize=0, ttl=0, *a, **k):
+        super().__init__(maxsize); self.ttl = ttl; self._t = {}
+    def __setitem__(self, key, value):
+        import time
+        self._t[key] = time.monotonic(); dict.__setitem__(self, key, value)
+    def _fresh(self, key):
+        import time
+        if dict.__contains__(self, key) and self.ttl and time.monotonic() - self._t.get(key, 0) >= self.ttl:
+            dict.pop(self, key, None); self._t.pop(key, None)
+        return dict.__contains__(self, key)
+    def __contains__(self, key): return self._fresh(key)
+    def __getitem__(self, key):
+        if not self._fresh(key): raise KeyError(key)
+        return dict.__getitem__(self, key)
+    def get(self, key, default=None): return dict.__getitem__(self, key) if self._fresh(key) else default
+    def clear(self, *a, **k):
+        self._t.clear(); dict.clear(self)
 class VTTLCache(TTLCache): pass
 
 def _copy(v):
     return copy.copy(v) if isinstance(v, (dict, list, set)) else v
+def postprocess_copy_mutables(v): return _copy(v)
+def postprocess_copy(v): return copy.copy(v)
+def postprocess_deepcopy_mutables(v): return copy.deepcopy(v) if type(v) in (dict, list, set) else v
+def postprocess_deepcopy(v): return copy.deepcopy(v)
 
-def make_key(args, kwds, fn=None):
-    return (args, tuple(sorted(kwds.items())))
+_KWDS_MARK = object()
+def make_key(*args, **kwds):
+    # cachebox 6.2 utils.make_key: a single int or str argument is the key itself, otherwise the argument tuple
+    if not kwds:
+        if len(args) == 1 and type(args[0]) in (int, str):
+            return args[0]
+        return args
+    key = args + (_KWDS_MARK,)
+    for item in kwds.items():
+        key += item
+    return key
 make_hash_key = make_typed_key = make_key
 
-def cached(cache, key_maker=make_key, clear_reuse=False, callback=None, copy_level=1, **kw):
+def cached(cache=None, key_maker=make_key, clear_reuse=False, callback=None, copy_level=1, postprocess=postprocess_copy_mutables, **kw):
+    _copy = postprocess if postprocess is not None else (lambda v: v)
     if cache is None: cache = Cache(0)
     dyn = callable(cache) and not isinstance(cache, dict)
     def deco(fn):
@@ -31,13 +62,13 @@ def cached(cache, key_maker=make_key, clear_reuse=False, callback=None, copy_lev
         if inspect.iscoroutinefunction(fn):
             @functools.wraps(fn)
             async def w(*a, **k):
-                c, ka = getc(a); key = key_maker(ka, k)
+                c, ka = getc(a); key = key_maker(*ka, **k)
                 if key in c: return _copy(c[key])
                 r = await fn(*a, **k); c[key] = r; return _copy(r)
         else:
             @functools.wraps(fn)
             def w(*a, **k):
-                c, ka = getc(a); key = key_maker(ka, k)
+                c, ka = getc(a); key = key_maker(*ka, **k)
                 if key in c: return _copy(c[key])
                 r = fn(*a, **k); c[key] = r; return _copy(r)
         if not dyn:
